@@ -38,7 +38,7 @@ IR_RUNS.update({
             "thorough": [("MC", "hier_ghost", 1), ("MC", "hier_deep", 0), ("MC", "hier_twice", 0), ("MC", "hier_none", 0), ("MC", "hier11", 4), ("MC", "hier11", 12, 600), ("MC", "hier_edit", 2),
                          ("MC", "hier_edit", 10, 400), ("MC", "hier_walk", 16, 1500)]},
     "C07": {"quick": [("MC", "clone", 2), ("MC", "clone_top", 1), ("MC", "clone_edit", 0)],
-            "thorough": [("MC", "clone", 3), ("MC", "clone_top", 3), ("MC", "clone_edit", 1)]},
+            "thorough": [("MC", "clone", 3), ("MC", "clone_top", 2), ("MC", "clone_edit", 1)]},
     "C06": {"quick": [("MC", "vlog_read", 2), ("MC", "vlog_read", 10, 14), ("MC", "vlog_decl", 0), ("MC", "vlog_assign", 1), ("MC", "vlog_alias", 2), ("MC", "vlog_shared", 0), ("FILES", "vlog_file", 6000)],
             "thorough": [("MC", "vlog_read", 3), ("MC", "vlog_read", 12, 300), ("MC", "vlog_decl", 0), ("MC", "vlog_assign", 3), ("MC", "vlog_alias", 4), ("MC", "vlog_shared", 0), ("FILES", "vlog_file", 30000)]},
     "C04": {"quick": [("MC", "vlog_rt", 2), ("MC", "vlog_rt", 10, 14), ("MC", "vlog_decl", 0), ("MC", "vlog_unused", 0), ("MC", "vlog_assign", 1), ("MC", "vlog_alias", 3), ("MC", "vlog_shared", 0), ("FILES", "vlog_rt", 6000)],
